@@ -7,6 +7,7 @@ mod model;
 mod node;
 mod rng;
 mod t1;
+mod t15;
 mod t3;
 mod t4;
 mod t5;
